@@ -7,6 +7,6 @@ FUNCTIONS = sorted(SC.CONTRACTS.keys())
 
 ASSUMPTIONS = []
 
-HARNESSES = SC.ENTRY_REFINES + SC.ENTRY_LEMMAS + SC.OPTION_REFINES + SC.OPTION_LEMMAS + SC.CONFIG_OBLIGATIONS
+HARNESSES = SC.ENTRY_REFINES + SC.ENTRY_LEMMAS + SC.OPTION_REFINES + SC.OPTION_LEMMAS + SC.CONFIG_OBLIGATIONS + SC.SD_OBLIGATIONS + SC.FIND_OBLIGATIONS + SC.GLUE_OBLIGATIONS
 
 EXPECT_COVERS = {"ob_entry_roundtrip": ["parsed"], "ob_entry_never_decodes_to_something_else": ["emitted"], "ob_entry_canonical": ["decoded"]}
